@@ -164,6 +164,11 @@ def check(run):
                 want = f"truthy:{vname}({vsrc})"
             atoms = {a[1] for a in G.atoms_of(pc) if a[0] == "atom"}
             ok = want in atoms and G.implies(pc, ("atom", want))[0]
+            if not ok and typ == "network.url":
+                # or the validator is applied to the reported (normalised) value itself
+                want2 = f"truthy:{vname}({vsrc})"
+                if want2 in atoms and G.implies(pc, ("atom", want2))[0]:
+                    ok, want = True, want2
             run.ob("R1-validator-dominance", f"{fi.fq}/{typ}-node", ok, w(n, m),
                    f"a {typ} node is constructed only after {vname}() accepted the text that becomes its value" + (" (the domain group)" if typ == "network.email" else ""),
                    f"needs `{want[7:]}` to hold; reaching condition is {G.show(pc)}", mech="reaching condition => validator atom (truth table)")
